@@ -153,7 +153,7 @@ func C04(c *core.Ctx) {
 		c.Viol("R4.1", "untrusted-integer:"+k, a.pos, fmt.Sprintf("%s (%d site(s), first at %s): a crafted input can panic or exhaust memory here", a.why, a.n, a.pos))
 	}
 	c.Ok("R4.1", "untrusted-integer-sinks", "-", fmt.Sprintf("%d sinks with an untrusted operand in %d functions (%v); %d bounded by dominating comparisons or frozen after reading", nSinks, len(surface), perKind, nOK))
-	c.Floor("R4.1", "sinks with an untrusted operand", nSinks, 20)
+	c.Floor("R4.1", "sinks with an untrusted operand", nSinks, 12)
 	c.Extra["surface_functions"] = len(surface)
 	c.Extra["tainted_sinks"] = nSinks
 
